@@ -180,14 +180,47 @@ def gen_fuzz_world(rng):
     f = w["flags"]
     f.update({"runtime_variance": rng.choice([0, 0, 10]), "scheduler_run_at_worker_free": False,
               "drop_skipped_tasks": rng.random() < 0.3, "enforce_deadlines": False})
-    w["fuzz"] = {"seed": rng.randint(0, 10 ** 6), "lookahead": rng.choice([0, 0, 5, 50, 200]),
+    w["fuzz"] = {"seed": rng.randint(0, 10 ** 6), "lookahead": rng.choice([0, 5, 50, 200, 200]),
                  "retract": rng.random() < 0.5, "release_taskgraphs": rng.random() < 0.3,
-                 "p_cancel": rng.choice([0.0, 0.03, 0.1]), "p_unplaced": rng.choice([0.05, 0.15, 0.4]),
+                 "p_cancel": rng.choice([0.0, 0.05, 0.15]), "p_unplaced": rng.choice([0.05, 0.15, 0.4]),
                  "p_future": rng.choice([0.0, 0.4, 0.8])}
     f["loop_timeout"] = min(f["loop_timeout"], rng.choice([300, 1000, 3000]))   # refused placements are retried every microsecond
     w["policy"] = "FUZZ"
     w["flags"]["scheduler"] = "EDF"         # unused: the harness substitutes its own policy
     return w
+
+
+def gen_clockwork_world(rng):
+    """inference-serving worlds for the Clockwork policy: models with loading strategies and several batch sizes"""
+    models = []
+    for m in range(rng.randint(1, 2)):
+        strategies = []
+        base = rng.choice([2, 3, 5])
+        for b in [1, 2, 4][:rng.randint(1, 3)]:
+            strategies.append({"batch_size": b, "runtime": base + b * rng.choice([1, 2]), "resource_requirements": {"GPU:any": 1}})
+        models.append({"name": "M%d" % m,
+                       "loading_strategies": [{"batch_size": 1, "runtime": rng.choice([2, 4, 6]),
+                                               "resource_requirements": {"RAM:any": rng.randint(1, 3)}}],
+                       "execution_strategies": strategies})
+    graphs = []
+    for g in range(rng.randint(1, 2)):
+        m = rng.choice(models)
+        pol = rng.choice(["fixed", "fixed", "poisson"])
+        graph = {"name": "Inf%d" % g, "graph": [{"name": "R", "work_profile": m["name"]}],
+                 "deadline_variance": [rng.choice([50, 200, 1000])] * 2}
+        if pol == "fixed":
+            graph.update({"release_policy": "fixed", "period": rng.choice([0, 1, 3, 10]), "invocations": rng.randint(2, 7)})
+        else:
+            graph.update({"release_policy": "poisson", "rate": rng.choice([0.2, 1.0]), "invocations": rng.randint(2, 6)})
+        graphs.append(graph)
+    workers = [{"name": "P0", "workers": [{"name": "W%d" % i, "resources": [{"name": "GPU", "quantity": 1},
+                                                                           {"name": "RAM", "quantity": rng.randint(3, 5)}]}
+                                          for i in range(rng.randint(1, 2))]}]
+    flags = {"scheduler": "Clockwork", "scheduler_runtime": 0, "random_seed": rng.randint(0, 10 ** 6),
+             "scheduler_frequency": rng.choice([1, 2, 5]), "scheduler_delay": 0, "runtime_variance": 0,
+             "loop_timeout": rng.choice([200, 400]), "scheduler_run_load": rng.random() < 0.8,
+             "clockwork_goal": rng.choice(["clockwork", "least_slack"])}
+    return {"workload": {"graphs": graphs, "profiles": models}, "workers": workers, "flags": flags, "policy": "Clockwork"}
 
 
 PLANNERS = ["ILP", "TetriSched_Gurobi", "TetriSched_CPLEX", "Z3"]
